@@ -53,7 +53,8 @@ def vec_close(a, b, unit=0.0):
 
 def perform(sa, eo, cfg, L, container=None):
     return quiet(sa.performSpatiallyAdaptiv, 1, cfg["lmax"], eo, tol=L["tol"], max_evaluations=L["max"],
-                 min_evaluations=L["min"], print_output=False, refinement_container=container)
+                 min_evaluations=L["min"], print_output=False, refinement_container=container,
+                 reevaluate_at_end=bool(cfg.get("reeval")))
 
 
 def cont(sa, L):
@@ -126,7 +127,7 @@ def check_config(ctx, drv, cfg, L2, max_index, case_out=None):
         case_out.update(case)
     rclass = c13.ref_class(c13.reference_of(cfg, c13.make_f(cfg)))
     base_tags = {"strategy": cfg["strategy"], "ref": rclass, "norm": cfg["norm"], "dim": cfg["dim"],
-                 "scale": cfg.get("scale", 1.0), "cache": cfg.get("cache", True),
+                 "scale": cfg.get("scale", 1.0), "cache": cfg.get("cache", True), "reevaluate_at_end": bool(cfg.get("reeval")),
                  "final_stop": "max" if L2["tol"] < 0 else ("min" if L2["tol"] >= 1e9 else "tol")}
 
     def corr(obs, impl, model, extra=None):
@@ -257,6 +258,11 @@ def check_config(ctx, drv, cfg, L2, max_index, case_out=None):
                 differs.append("points")
             if ev2 != ev0:
                 differs.append("evaluations")
+            # both runs end in the same state, so the error they report for their last evaluation (= the deviation of the
+            # combined result the loop worked with from the reference) must agree as well -- provided the evaluation at the
+            # interruption state is re-entrant (otherwise the duplicated evaluation itself may legitimately differ)
+            if reent and not vec_close([float(r2[5][-1])], [float(r0[5][-1])]):
+                differs.append("final-error")
             if differs:
                 # is the difference exactly "the areas that were new at the interruption were added a second time"?
                 tags["delta_is_new_areas"] = bool(new_sum is not None and set(differs) <= {"result", "evaluations"} and
@@ -264,7 +270,8 @@ def check_config(ctx, drv, cfg, L2, max_index, case_out=None):
                                                             unit=max([abs(x) for x in res0 + res2] + [0.0]) + area_size))
                 ok = not ctx.violation("resume-vs-single", dict(tags, differs="+".join(differs)), sub,
                               {"differs": differs, "single": {"result": res0, "points": pts0, "evaluations": ev0, "stream_points": [x[1] for x in stream]},
-                               "resumed": {"result": res2, "points": pts2, "evaluations": ev2, "points_array": [int(x) for x in r2[6]]},
+                               "resumed": {"result": res2, "points": pts2, "evaluations": ev2, "points_array": [int(x) for x in r2[6]],
+                                           "final_error": float(r2[5][-1]), "single_final_error": float(r0[5][-1])},
                                "reevaluation_on_copy": {"before": before, "after": after}}) and ok
                 ctx.count("defect_cases")
             else:
@@ -332,7 +339,16 @@ def gen_final_limits(rng, stream, max_index, strategy):
     if kind == "max" or not math.isfinite(e):
         return {"tol": -1.0, "min": 1, "max": p - 1}
     if kind == "tol":
-        return {"tol": e, "min": 1, "max": stream[min(len(stream) - 1, max_index)][1] - 1}
+        tol = e
+        if strategy == "extend_split":
+            # extend-split accumulates its result incrementally: a leg that recomputes it (container resume,
+            # reevaluate_at_end) sums the same areas in another order, its errors differ from the single run's in the last
+            # bits.  A tolerance EXACTLY on an error of the stream would turn that rounding into a different stop (numerics
+            # policy of DESIGN 2.4: no decision by a margin below 1e-12); keep a relative margin of 1e-9 to every error.
+            tol = e * (1 + 1e-9) if e > 0 else e
+            if any(math.isfinite(x[0]) and abs(x[0] - tol) <= 1e-10 * abs(tol) for x in stream) or e <= 0:
+                return {"tol": -1.0, "min": 1, "max": p - 1}
+        return {"tol": tol, "min": 1, "max": stream[min(len(stream) - 1, max_index)][1] - 1}
     return {"tol": 1e9, "min": p, "max": None if rng.random() < 0.5 else stream[min(len(stream) - 1, max_index)][1] - 1}
 
 
@@ -340,7 +356,7 @@ def run(ctx):
     thorough = ctx.tier == "thorough"
     ctx.rule = ("configurations as in C13 (dimension-wise versions 2/3/6 and extend-split, dim 2-3, lmax 2-3, dyadic polynomial integrands with 1-3 "
                 "outputs, reference exact/perturbed/zero/none, norms inf/1/2); final limits stop by max_evaluations, by tolerance or by tolerance+min; "
-                "value cache on / deactivated, integrands scaled by 1e-12..1e8; plus a family of long dim-3 dimension-wise runs (final index 5-9); "
+                "value cache on / deactivated, integrands scaled by 1e-12..1e8, reevaluate_at_end on in 35 % (all legs and the single run); plus a family of long dim-3 dimension-wise runs (final index 5-9); "
                 "EVERY evaluation index of the uninterrupted run (incl. the last) is an interruption point, each continued with continue_adaptive_refinement "
                 "with and without save/restore, and (dimension-wise) resumed via performSpatiallyAdaptiv(refinement_container=...); "
                 "a case is one (configuration, final limits, interruption index, save?) resume, all are non-trivial")
@@ -368,8 +384,14 @@ def run(ctx):
             ctx.count("family_deep_dim3")
         else:
             cfg = c13.gen_cfg(ctx.rng, thorough)
+            cfg.pop("grid", None)          # C13's extra families (non-nested grids, recalculate_frequently) are not part of
+            cfg.pop("recalc", None)        # the resume protocol
         if cfg["ref"] == "partial_zero":
             cfg["ref"] = "exact"
+        # every leg (and the single run it is compared with) ends with evaluate_final_combi(): whatever that recomputation
+        # leaves in the areas / intervals is what the continued leg starts from
+        cfg["reeval"] = ctx.rng.random() < 0.35
+        ctx.count("reevaluate_at_end_%s" % cfg["reeval"])
         cap = (480 if deep else ctx.rng.choice([60, 90, 130] if cfg["dim"] == 2 else [120, 200]))
         sa, eo, f = build(cfg)
         try:
